@@ -57,6 +57,8 @@ def main(tier='quick', seed=0):
     orig_jobs = engine.run_jobs
 
     def run_jobs(modname, jobs, procs=None):
+        if modname != 'props.c04':
+            return orig_jobs(modname, jobs, procs)          # jobs of other modules (the unification contract obligations) run as they are
         return orig_jobs('props.c04', list(jobs) + [('unary', 'apply_unary_rules')], procs)
     engine.run_jobs = run_jobs
     try:
